@@ -28,7 +28,10 @@ def matches(vals: list, want: Any, tol: float) -> bool:
 
 def canonical_case(d: Any) -> Optional[tuple[str, str, str]]:
     from symplyphysics.docs.printer_latex import latex_str
-    e = printspace.build(d)
+    try:
+        e = printspace.build(d)
+    except OverflowError:
+        return None  # sympy cannot even build this power of a huge float
     if e.has(sp.zoo, sp.nan) or e in (sp.oo, -sp.oo):
         return None
     key = sp.srepr(e)
@@ -61,6 +64,9 @@ def canonical_case(d: Any) -> Optional[tuple[str, str, str]]:
             return key, "undefined", ""
         if mpmath.isnan(want) or mpmath.isinf(want):
             return key, "undefined", ""
+        if want != 0 and abs(mpmath.log10(abs(want))) > 5000:
+            return key, "undefined", ""  # astronomically large / small: a 15-digit float in an
+            # exponent makes the comparison meaningless
         if not matches(got, want, tol):
             return key, "read", (f"{tex!r} reads as {[mpmath.nstr(g, 12) for g in got[:3]]} but the "
                 f"expression {short(e, 80)} is {mpmath.nstr(want, 12)} at {pt}")
